@@ -667,3 +667,19 @@ def c20r(ctx):
         ctx.check(ok, 'TileManager._load_tile_coords:load_tiles#%d:metadata-flag-handed-on' % (k + 1), 'cache.load_tiles(.., with_metadata, ..)', fn, x,
                   fail='a load of cached tiles in _load_tile_coords does not pass with_metadata on (%s): those tiles are served without '
                        'their validators' % (unparse(a) if a is not None else 'missing'))
+
+
+@rule('C20.s', floor=1)
+def c20s(ctx):
+    """304 only for a validator that matches the tile as it is stored now: If-Modified-Since is compared with the time stamp of the
+    tile itself, fractions included -- Response keeps `timestamp(date)` as it is.  Cut to whole seconds, a tile stored at T+0.25 s and
+    rewritten at T+0.75 s answers 304 to the Last-Modified of its first version"""
+    fn = ctx.fn('mapproxy/response.py:Response._last_modified_set')
+    sets = [s for s in fn.walk() if isinstance(s, ast.Assign) and unparse(s.targets[0]) == 'self._timestamp']
+    if not sets:
+        raise Undecided('Response._last_modified_set: self._timestamp is not set')
+    ok = all(not contains(fn.canon.expr(s.value), lambda x: is_call(x, 'int', 'round', 'math.floor', 'floor', 'math.trunc', 'trunc')) and
+             is_call(fn.canon.expr(s.value), 'timestamp') for s in sets)
+    ctx.check(ok, 'Response._last_modified_set:time-stamp-kept-exact', 'self._timestamp = timestamp(date), not cut to whole seconds', fn,
+              fail='Response keeps the time stamp of the tile cut to whole seconds: a rewrite within the same second is answered 304 for the '
+                   'validator of the version before it')
